@@ -120,6 +120,18 @@ impl PropCase for RoundTrip {
                 );
                 ctx.bump("runs:F3");
             }
+            // ---- F3 over a non-fused source: the input ended at the source's first None
+            {
+                let after = crate::refm::transport::ref_encode(&[0x77, 0x66]);
+                let out = run_f3_unfused(f, &after, 4);
+                let evs: Vec<TEv> = out.log.iter().map(|(_, e)| e.clone()).collect();
+                ensure!(
+                    evs == vec![TEv::Ok(p.clone())] && out.late.is_empty(),
+                    &format!("F3-unfused-source/{}", ename),
+                    format!("[Ok({})] then None on every further call (no other output after the end of input)", hex_short(p)),
+                    format!("{} late={:?}", evs_str(&evs), out.late)
+                );
+            }
             // ---- readers
             let srcs = [Src::Slice, Src::IterVal, Src::IterRef, Src::Io];
             let mut rbufs: Vec<RBuf> = vec![RBuf::Kind(BufKind::Vec)];
